@@ -385,3 +385,32 @@ Definition ph_okb (ph : pseudo) : bool :=
 (* the wire form of one option *)
 Definition opt_enc (o : opt) : list Z :=
   [u8 (o_type o); u8 ((n6_len (o_data o) + 2) / 8)] ++ o_data o.
+
+(* ================================================================ ICMPv6Echo (icmp6msg.go:62-67,140-178) *)
+
+Record echo := mkEcho { ec_id : Z; ec_seq : Z; ec_contents : list Z; ec_payload : list Z }.
+Definition echo_fresh : echo := mkEcho 0 0 [] [].
+
+(* DecodeFromBytes (repaired: BaseLayer is assigned; the unchanged code left Contents and Payload as
+   they were, so the echo data was never available as payload) *)
+Definition echo_decode_gen (orig : bool) (old : echo) (data : list Z) : dres echo :=
+  if n6_len data <? 4 then (old, Err 1, true)
+  else
+    match n6_slice data 0 2, n6_slice data 2 4, n6_slice data 0 4, n6_from data 4 with
+    | Some a, Some b, Some c, Some p =>
+        (if orig then mkEcho (be_val a) (be_val b) (ec_contents old) (ec_payload old)
+         else mkEcho (be_val a) (be_val b) c p, Ok tt, false)
+    | _, _, _, _ => (old, Panic 1, false)
+    end.
+Definition echo_decode_into := echo_decode_gen false.
+Definition echo_decode_into_orig := echo_decode_gen true.
+
+Definition echo_next (l : echo) : Z := LT_Payload.
+
+(* SerializeTo: PutUint16(buf, Identifier); PutUint16(buf[2:], SeqNumber) *)
+Definition echo_serialize (l : echo) (payload : list Z) (fix_ csum : bool) (junk : list Z) : outcome (list Z) * echo :=
+  let region := fst (n6_take 4 junk) in
+  (Ok (n6_put (n6_put region 0 (be_bytes 2 (ec_id l))) 2 (be_bytes 2 (ec_seq l)) ++ payload), l).
+
+Definition echo_okb (l : echo) : bool :=
+  (0 <=? ec_id l) && (ec_id l <? 65536) && (0 <=? ec_seq l) && (ec_seq l <? 65536).
